@@ -187,6 +187,51 @@ theorem matcher_correct_namespace_partial (key v : Str) (tcp auth : Bool) (req :
       splitOn_of_not_mem '*' v hv.1, globParts]
     exact rx_ns_exact v i hv.2 hw.2.1 hw.2.2.1 hw.2.2.2 hs.1 hs.2
 
+theorem splitOn_nil (c : Char) : splitOn c [] = [[]] := rfl
+
+theorem matcher_correct_namespace_forms (key v : Str) (tcp auth : Bool) (req : Request)
+    (hv : nsValueOK v = true) (hr : req.peerOK = true) :
+    PrinAtomExact .srcNamespace key v tcp auth req := by
+  intro p hp
+  simp only [genPrincipal, Option.some.injEq] at hp
+  subst hp
+  rw [eval_principalAuthenticated]
+  unfold nsValueOK at hv
+  simp only [Bool.and_eq_true, Bool.or_eq_true, Bool.not_eq_true', List.contains_eq_mem,
+    decide_eq_false_iff_not, bne_iff_ne, ne_eq] at hv
+  obtain ⟨hsl, hforms⟩ := hv
+  cases h : req.peer with
+  | none => simp [peerName, specAtom, h]
+  | some i =>
+    obtain ⟨hw, hs⟩ := peerOK_some hr h
+    simp only [peerName, h, Option.map_some, Option.any_some, evalStrM, specAtom, globForm]
+    rcases hforms with (hno | ⟨hsuf, hp⟩) | ⟨⟨⟨⟨hpre, hq⟩, hqne⟩, hqa⟩, hqsa⟩
+    · rw [splitOn_of_not_mem '*' v hno]
+      simp only [globParts]
+      exact rx_ns_exact v i hsl hw.2.1 hw.2.2.1 hw.2.2.2 hs.1 hs.2
+    · obtain ⟨t, rfl⟩ := (hasSuffix_star_iff v).1 hsuf
+      simp only [dropLast_append_singleton] at hp
+      have hts : '/' ∉ t := fun hm => hsl (List.mem_append_left _ hm)
+      have : splitOn '*' (t ++ ['*']) = [t, []] := by
+        rw [splitOn_sl '*' t [] hp, splitOn_nil]
+      rw [this, rx_ns_prefix t i hts hw.2.1 hw.2.2.1 hw.2.2.2 hs.1 hs.2]
+      simp only [globParts, Bool.and_eq_true]
+      rw [Bool.eq_iff_iff]
+      simp only [Bool.and_eq_true, anySuffix_iff]
+      constructor
+      · intro hh; exact ⟨hh, [], List.nil_suffix, by simp⟩
+      · intro hh; exact hh.1
+    · obtain ⟨q, rfl⟩ := (hasPrefix_star_iff v).1 hpre
+      simp only [List.drop_succ_cons, List.drop_zero] at hq hqne hqa hqsa
+      have hqs : '/' ∉ q := fun hm => hsl (List.mem_cons_of_mem _ hm)
+      have : splitOn '*' ('*' :: q) = [[], q] := by
+        have := splitOn_sl '*' [] q (by simp)
+        simp only [List.nil_append] at this
+        rw [this, splitOn_of_not_mem '*' q hq]
+      rw [this, rx_ns_suffix q i hqs hqne hqa hqsa hw.2.1 hw.2.2.1 hw.2.2.2 hs.1 hs.2]
+      simp only [globParts, List.length_nil, List.drop_zero, anySuffix_beq]
+      simp [hasPrefix, hasSuffix]
+
 theorem matcher_correct_serviceaccount (pns key v : Str) (tcp auth : Bool) (req : Request)
     (hv : pns.contains '/' = false) (hr : req.peerOK = true) :
     PrinAtomExact (.srcServiceAccount pns) key v tcp auth req := by
@@ -242,7 +287,7 @@ theorem matcher_correct_principals (g : Gen) (key v : Str) (tcp auth : Bool) (re
     (hv : prinValueOK g v = true) (hr : req.peerOK = true) :
     PrinAtomExact g key v tcp auth req := by
   cases g
-  case srcNamespace => exact matcher_correct_namespace_partial key v tcp auth req hv hr
+  case srcNamespace => exact matcher_correct_namespace_forms key v tcp auth req hv hr
   case srcServiceAccount pns =>
     exact matcher_correct_serviceaccount pns key v tcp auth req (by simpa [prinValueOK] using hv) hr
   case srcTrustDomain =>
